@@ -345,7 +345,7 @@ func c19(r *rt.Run) {
 		{"z", 0, [][]int64{{}}}, {"y", 0, [][]int64{{}}},
 		{"p", 1, [][]int64{{1}, {2}}}, {"q", 2, [][]int64{{1, 2}, {2, 1}}}, {"r", 3, [][]int64{{1, 2, 3}, {1, 1, 1}}},
 		{"p", 2, [][]int64{{1, 2}, {2, 2}}}, // same symbol as p/1, different arity
-		{"e", 1, nil},                      // listed but empty
+		{"e", 1, nil},                       // listed but empty
 	}
 	var layouts [][]int
 	var recL func(cur []int)
